@@ -759,10 +759,10 @@ impl TypeChecker {
 
                     let variant_already_used =
                         used_variants.contains(&variant.node);
+                    // An earlier arm without a guard already covers this
+                    // variant, so this arm can never run.
                     if variant_already_used {
-                        println!(
-                            "WARNING: Variant occurs multiple times in match! This arm is unreachable"
-                        )
+                        return Err(self.error_unreachable_expression(body));
                     }
 
                     let field_types = &variants[idx].fields;
